@@ -12,10 +12,13 @@ from props import _cleaner as K
 
 NATIVE = K.NATIVE
 if not NATIVE:
-    K.install()
+    K.install(extra={"insights.core.spec_factory": {"strings": True}})
 
 from insights import cleaner as CL  # noqa: E402
 from insights.cleaner import ip as IPM, mac as MACM, hostname as HNM, keyword as KWM, password as PWM, pattern as PTM  # noqa: E402
+from insights.core import spec_factory as SF  # noqa: E402
+from insights.core.context import HostContext  # noqa: E402
+from insights.core.exceptions import ContentException  # noqa: E402
 
 if not NATIVE:
     import z3
@@ -337,6 +340,95 @@ def make_pattern():
     return fn
 
 
+class _DS(object):
+    no_redact = False
+
+    def __init__(self, no_obf):
+        self.no_obfuscate = list(no_obf)
+
+
+def provider_write(cl, lines, no_obf):
+    """DatasourceProvider.write under a HostContext (the path every spec takes before it is stored during host collection) with
+    open() / ensure_path recording instead of touching the disk; returns the text that would be written (or None)"""
+    written = []
+
+    class F(object):
+        def __enter__(self):
+            return self
+
+        def __exit__(self, *a):
+            return False
+
+        def write(self, data):
+            written.append(data)
+    old_open, old_ensure = SF.__dict__.get("open"), SF.fs.ensure_path
+    SF.open = lambda p, mode="r": F()
+    SF.fs.ensure_path = lambda p, mode=0o755: None
+    try:
+        prov = SF.DatasourceProvider(list(lines), "insights_commands/test", ds=_DS(no_obf), ctx=HostContext(), cleaner=cl)
+        try:
+            prov.write("/out/data/insights_commands/test")
+        except ContentException:
+            return None
+    finally:
+        if old_open is None:
+            SF.__dict__.pop("open", None)
+        else:
+            SF.open = old_open
+        SF.fs.ensure_path = old_ensure
+    if not written:
+        return None
+    d = written[0]
+    if isinstance(d, bytes):
+        return d.decode("utf-8")
+    return d.s if hasattr(d, "s") else d
+
+
+def make_collection():
+    """the host-collection path: what ContentProvider.write stores has gone through the cleaner"""
+    def fn(en):
+        A = _ctx_alpha()
+        which = en.choice("which", 3)
+        pre = sstr.fresh_str_upto(en, "pre", 1, A)
+        post = sstr.fresh_str_upto(en, "post", 1, A)
+        if which == 0:
+            tok = cat(K.octet_text(en, "o0", K.OCTET_SHAPES[en.choice("sh0", 5)], True), ".", K.octet_text(en, "o1", "z", False), ".9.", K.octet_text(en, "o3", "nz", False))
+            v = K.ipv4_value(tok)
+            en.assume(f_or(v < 0x0AE6E601, v > 0x0AE6E610))
+        elif which == 1:
+            tok = "secret"
+        else:
+            tok = K.FQDN
+        line = cat(pre, tok, post)
+        exempt = en.flag("exempt")
+        name = ["ip", "keyword", "hostname"][which]
+        case = lambda mv: {"kind": "collection", "line": mv.str(line), "tokens": [mv.str(tok)], "which": name, "exempt": exempt}  # noqa
+        en.note_sample(case)
+        cl = K.make_cleaner(K.Cfg(hostname=True, mac=False), keywords=KEYWORDS)
+        text = provider_write(cl, ["harmless first line", line], [name] if exempt else [])
+        en.must_hold(text is not None, "stored-content-cleaned", case, detail="nothing was written")
+        if text is None:
+            return
+        if exempt:
+            # an exempted spec is stored with the token untouched
+            f = f_contains(text, tok)
+            en.must_hold(f if isinstance(f, bool) else SBool(f), "stored-content-cleaned", case, detail="an exempted spec was altered")
+            return
+        if which == 0:
+            L = cps_of(line)
+            prev = L[len(pre) - 1] if len(pre) else None
+            nxt = L[len(pre) + len(tok)] if len(post) else None
+            delimited_in = f_and(ip_left(prev), ip_right(nxt, None))
+            leak = occurs_delimited(text, tok, ip_left, ip_right)
+            ok = f_or(f_not(delimited_in), f_eq(tok, "127.0.0.1") if len(tok) == 9 else False, f_not(leak))
+        elif which == 1:
+            ok = f_not(f_contains(text, "secret"))
+        else:
+            ok = f_not(f_contains(text, "myhost"))
+        en.must_hold(ok if isinstance(ok, bool) else SBool(ok), "stored-content-cleaned", case, detail="the stored content still carries the sensitive token")
+    return fn
+
+
 def make_exempt():
     """per-spec exemptions switch exactly the named obfuscator off"""
     def fn(en):
@@ -385,6 +477,10 @@ def obligations(tier):
         Obligation("O6-pattern", make_pattern(), ["pattern-line-dropped"], desc="exclusion patterns, plain and regular-expression form (POSIX brackets), with symbolic context; no_redact exemption",
                    bounds={"plain": PLAIN_PATTERNS, "regex": REGEX_PATTERNS, "context": "0-1 char on each side unless anchored"}, stubs=K.STUBS, outside=outside,
                    encoded=enc[9:], budget_s=600 if thorough else 100, replay="clean", check_sample=True),
+        Obligation("O8-collection", make_collection(), ["stored-content-cleaned"], desc="DatasourceProvider.write under a HostContext: what is stored has been cleaned (or is untouched for an exempted spec)",
+                   bounds={"tokens": "IPv4 (first octet every shape) / keyword / system fqdn", "context": "0-1 char on each side", "exemption": "on / off"},
+                   stubs=K.STUBS + ["open() / fs.ensure_path of spec_factory record instead of touching the disk; str.encode carried through"], outside=outside,
+                   encoded=[SF.ContentProvider._clean_content, SF.ContentProvider.write], budget_s=600 if thorough else 150, replay="clean", check_sample=True),
         Obligation("O7-exemptions", make_exempt(), ["exemption-exact"], desc="no_obfuscate switches exactly the named obfuscator off", bounds={"obfuscators": 5},
                    stubs=K.STUBS, encoded=enc[:1], budget_s=60, replay="clean", check_sample=True),
     ]
@@ -455,6 +551,21 @@ def _native(case):
         o = out[0] if out else ""
         if o.count("********") < len(case["tokens"]) or any(len(v) >= 2 and v in o for v in case["tokens"]):
             bad.append("not every secret masked: %r -> %r" % (case["line"], o))
+    elif kind == "collection":
+        cl = K.make_cleaner(K.Cfg(hostname=True, mac=False), keywords=KEYWORDS)
+        text = provider_write(cl, ["harmless first line", case["line"]], [case["which"]] if case["exempt"] else [])
+        tok = case["tokens"][0]
+        if text is None:
+            bad.append("nothing was written")
+        elif case["exempt"]:
+            if tok not in text:
+                bad.append("an exempted spec was altered: %r" % text)
+        elif case["which"] == "ip":
+            rx = r"(?<![\w.])" + _re.escape(tok) + r"(?!\w)(?!\.\d)"
+            if tok != "127.0.0.1" and _re.search(rx, case["line"]) and _re.search(rx, text):
+                bad.append("stored content still carries %s: %r" % (tok, text))
+        elif ("secret" if case["which"] == "keyword" else "myhost") in text:
+            bad.append("stored content still carries the token: %r" % text)
     elif kind == "pattern":
         cl = K.make_cleaner(K.Cfg(obfuscate=False), patterns=[case["pattern"]], regex=case["regex"])
         out = cl.clean_content(["harmless line", case["line"]], no_redact=case["no_redact"])
